@@ -268,8 +268,9 @@ class InterpND(object):
             # Input is a list or tuple of separate points.
             x = np.atleast_2d(x)
 
-        # cache latest evaluation point for gradient method's use later
-        self._xi = x
+        # cache latest evaluation point for gradient method's use later (a copy: the caller may
+        # change its array in place before asking for the gradient)
+        self._xi = x.copy()
 
         xnew = self._interpolate(x)
 
